@@ -70,6 +70,7 @@ WEAK_KEYS = [bytes.fromhex(k) for k in (
     "011F011F010E010E", "1F011F010E010E01")]
 
 
+import re as _re
 import traffic
 
 HINTS = None      # hints.Hints when the current source holds constants the snapshot lacks (change-directed search aid)
@@ -177,6 +178,45 @@ def hint_grid(R, cap=4000):
     return out[:cap]
 
 
+def poison_key(k, R):
+    """residue a state-carrying helper could keep under key `k`, its halves and its triple-length form: ragged ECB and CBC
+    calls (partial trailing block), a bytearray IV used, rewritten in place with the last cipher block, used again and
+    scrambled, a non-zero IV, an exception path, a check value, a MAC with an invalid method"""
+    for kk in (k, k[:8], k[8:], k + k[:8]):
+        iv = bytearray(8)                            # a chaining buffer: used as the IV, then rewritten in place
+
+        def chained(kk=kk, iv=iv):
+            out = tools.encrypt_tdes_cbc(kk, iv, R.randbytes(16))
+            iv[:] = out[-8:]
+            tools.encrypt_tdes_cbc(kk, iv, R.randbytes(8))
+            iv[:] = R.randbytes(8)
+        for fn in (chained,
+                   lambda: tools.encrypt_tdes_ecb(kk, R.randbytes(R.choice([1, 3, 5, 7, 9, 13]))),
+                   lambda: tools.encrypt_tdes_cbc(kk, R.randbytes(8), R.randbytes(R.choice([3, 11, 16]))),
+                   lambda: tools.encrypt_tdes_cbc(kk, R.randbytes(5), b"12345678"),
+                   lambda: tools.key_check_digits(kk, 3),
+                   lambda: mac.mac_iso9797_3(kk[:8], kk[-8:], R.randbytes(5), 7)):
+            try:
+                fn()
+            except Exception:  # noqa: BLE001
+                pass
+
+
+_HEXKEY = _re.compile(r"^(?:[0-9a-fA-F]{16}|[0-9a-fA-F]{32}|[0-9a-fA-F]{48})$")
+
+
+def poison_line(line, R):
+    """the poisoning sequence under every key-sized argument of an operation line, run immediately before the call
+    (whatever a bounded cache has evicted since the prelude is there again)"""
+    n = 0
+    for tok in line.split()[1:]:
+        if _HEXKEY.match(tok):
+            poison_key(bytes.fromhex(tok), R)
+            n += 1
+            if n >= 4:
+                break
+
+
 class G:
     """generator state for one run: a small pool of keys and messages so that calls repeat arguments
     (which is what exposes caches keyed on too little)"""
@@ -222,26 +262,8 @@ class G:
     def poison(self):
         """leave whatever residue a state-carrying helper could keep under the pooled keys: ragged ECB and
         CBC calls (partial trailing block), a non-zero IV, an exception path — before any case is run"""
-        R = self.R
         for k in list(self.keys):
-            for kk in (k, k[:8], k[8:], k + k[:8]):
-                iv = bytearray(8)                        # a chaining buffer: used as the IV, then rewritten in place
-
-                def chained(kk=kk, iv=iv):
-                    out = tools.encrypt_tdes_cbc(kk, iv, R.randbytes(16))
-                    iv[:] = out[-8:]
-                    tools.encrypt_tdes_cbc(kk, iv, R.randbytes(8))
-                    iv[:] = R.randbytes(8)
-                for fn in (chained,
-                           lambda: tools.encrypt_tdes_ecb(kk, R.randbytes(R.choice([1, 3, 5, 7, 9, 13]))),
-                           lambda: tools.encrypt_tdes_cbc(kk, R.randbytes(8), R.randbytes(R.choice([3, 11, 16]))),
-                           lambda: tools.encrypt_tdes_cbc(kk, R.randbytes(5), b"12345678"),
-                           lambda: tools.key_check_digits(kk, 3),
-                           lambda: mac.mac_iso9797_3(kk[:8], kk[-8:], R.randbytes(5), 7)):
-                    try:
-                        fn()
-                    except Exception:  # noqa: BLE001
-                        pass
+            poison_key(k, self.R)
 
     def fresh_key(self, n=16):
         return self.R.randbytes(n)
@@ -376,7 +398,10 @@ class G:
         d = "".join(self.R.choice("0123456789") for _ in range(n))
         if HINTS and n and self.R.random() < 0.3 and (HINTS.digit_strs or HINTS.byte_values):
             R = self.R
-            p = (R.choice(HINTS.digit_strs) if HINTS.digit_strs and R.random() < .7 else str(R.choice(HINTS.byte_values) % 10) * R.randrange(1, n + 1))[:n]
+            if HINTS.digit_strs and (not HINTS.byte_values or R.random() < .7):
+                p = R.choice(HINTS.digit_strs)[:n]
+            else:
+                p = (str(R.choice(HINTS.byte_values) % 10) * R.randrange(1, n + 1))[:n]
             i = R.choice([0, n - len(p), R.randrange(0, n - len(p) + 1)])
             d = d[:i] + p + d[i + len(p):]
         return d
